@@ -360,6 +360,16 @@ static mut M_BUF: (usize, usize) = (0, 0);
 static mut M_CFG: usize = 0;
 static mut M_RES: u8 = 0;
 static mut M_N: usize = 0;
+// the start-line fields as the callee found them and as it left them (frame: the wrapper itself must not touch them, neither before
+// delegating -- the callee's contract is stated over the fields it finds -- nor afterwards)
+static F1: &str = "field-one";
+static F2: &str = "field-two";
+static mut M_IN: (u8, u8, u16, u16) = (0, 0, 0, 0);
+static mut M_OUT: (u8, u8, u16, u16) = (0, 0, 0, 0);
+fn scode(s: Option<&str>) -> u8 { match s { None => 0, Some(x) => if x.as_ptr() == F1.as_ptr() { 1 } else if x.as_ptr() == F2.as_ptr() { 2 } else { 3 } } }
+fn sval<'x>(c: u8) -> Option<&'x str> { match c { 0 => None, 1 => Some(F1), _ => Some(F2) } }
+fn vcode(v: Option<u8>) -> u16 { match v { None => 0x100, Some(x) => x as u16 } }
+fn ccode(v: Option<u16>) -> u16 { match v { None => 0xffff, Some(x) => x } }
 fn model_result() -> Result<usize> {
     let which: u8 = kani::any_where(|w: &u8| *w <= 8);
     let n: usize = kani::any();
@@ -377,6 +387,11 @@ fn decode(which: u8, n: usize) -> Result<usize> {
 impl<'h, 'b> Request<'h, 'b> {
     fn kani_model_uninit(&mut self, buf: &'b [u8], config: &ParserConfig, headers: &'h mut [MaybeUninit<Header<'b>>]) -> Result<usize> {
         unsafe { M_CALLS += 1; M_BUF = (buf.as_ptr() as usize, buf.len()); M_CFG = config as *const ParserConfig as usize; }
+        unsafe { M_IN = (scode(self.method), scode(self.path), vcode(self.version), 0); }
+        let (m, p): (u8, u8) = (kani::any_where(|c: &u8| *c <= 2), kani::any_where(|c: &u8| *c <= 2));
+        let v: Option<u8> = if kani::any() { Some(kani::any()) } else { None };
+        self.method = sval(m); self.path = sval(p); self.version = v;
+        unsafe { M_OUT = (m, p, vcode(v), 0); }
         let k: usize = kani::any_where(|k: &usize| *k <= headers.len());
         let mut i = 0;
         while i < k { headers[i] = MaybeUninit::new(Header { name: "written", value: b"" }); i += 1; }
@@ -391,6 +406,12 @@ impl<'h, 'b> Request<'h, 'b> {
 impl<'h, 'b> Response<'h, 'b> {
     fn kani_model_uninit(&mut self, buf: &'b [u8], config: &ParserConfig, headers: &'h mut [MaybeUninit<Header<'b>>]) -> Result<usize> {
         unsafe { M_CALLS += 1; M_BUF = (buf.as_ptr() as usize, buf.len()); M_CFG = config as *const ParserConfig as usize; }
+        unsafe { M_IN = (scode(self.reason), 0, vcode(self.version), ccode(self.code)); }
+        let m: u8 = kani::any_where(|c: &u8| *c <= 2);
+        let v: Option<u8> = if kani::any() { Some(kani::any()) } else { None };
+        let c: Option<u16> = if kani::any() { Some(kani::any_where(|c: &u16| *c < 1000)) } else { None };
+        self.reason = sval(m); self.version = v; self.code = c;
+        unsafe { M_OUT = (m, 0, vcode(v), ccode(c)); }
         let k: usize = kani::any_where(|k: &usize| *k <= headers.len());
         let mut i = 0;
         while i < k { headers[i] = MaybeUninit::new(Header { name: "written", value: b"" }); i += 1; }
@@ -416,7 +437,15 @@ fn leaf_request_wrapper_restores() {
     let buf = &bufa[..blen];
     let cfg = ParserConfig::default();
     let mut req = Request::new(&mut arr[..cap]);
+    // a value that has been through earlier calls: any field state
+    let (m0, p0f): (u8, u8) = (kani::any_where(|c: &u8| *c <= 2), kani::any_where(|c: &u8| *c <= 2));
+    let v0: Option<u8> = if kani::any() { Some(kani::any()) } else { None };
+    req.method = sval(m0); req.path = sval(p0f); req.version = v0;
     let r = req.parse_with_config(buf, &cfg);
+    unsafe {
+        assert!(M_IN == (m0, p0f, vcode(v0), 0));                                             // untouched before delegating
+        assert!((scode(req.method), scode(req.path), vcode(req.version), 0) == M_OUT);        // untouched afterwards
+    }
     // pure pass-through: the callee is called exactly once, with this buffer and this config, and its result is returned
     unsafe {
         assert!(M_CALLS == 1);
@@ -441,7 +470,15 @@ fn leaf_response_wrapper_restores() {
     let buf = &bufa[..blen];
     let cfg = ParserConfig::default();
     let mut resp = Response::new(&mut arr[..cap]);
+    let m0: u8 = kani::any_where(|c: &u8| *c <= 2);
+    let v0: Option<u8> = if kani::any() { Some(kani::any()) } else { None };
+    let c0: Option<u16> = if kani::any() { Some(kani::any_where(|c: &u16| *c < 1000)) } else { None };
+    resp.reason = sval(m0); resp.version = v0; resp.code = c0;
     let r = resp.parse_with_config(buf, &cfg);
+    unsafe {
+        assert!(M_IN == (m0, 0, vcode(v0), ccode(c0)));
+        assert!((scode(resp.reason), 0, vcode(resp.version), ccode(resp.code)) == M_OUT);
+    }
     unsafe {
         assert!(M_CALLS == 1);
         assert!(M_BUF == (buf.as_ptr() as usize, buf.len()));
